@@ -35,8 +35,10 @@ class FloatData(NumericData):
         :param values: numpy array to modify.
         :return: the formatted values.
         """
-        if not np.issubdtype(values.dtype, np.number):
-            raise TypeError("Values must be a numpy array of numeric values.")
+        if not np.issubdtype(values.dtype, np.number) or np.issubdtype(
+            values.dtype, np.complexfloating
+        ):
+            raise TypeError("Values must be a numpy array of real numeric values.")
 
         return values.astype(np.float64)
 
